@@ -129,6 +129,9 @@ SigSize(k, c) == IF c THEN CompactSigSize(k) ELSE SumSigSize(k)
 KeySize(k) == 32 + k * 32 + k * 64 + 4
 
 ---------------------------------------------------------------------------
+MaxDepth == CHOOSE d \in Depths : \A e \in Depths : e <= d
+Periods == 0..(Pow2(MaxDepth) - 1)         \* in-range periods of the deepest key (Verify guards t < Total)
+
 Init == /\ depth = 0 /\ compact = FALSE /\ period = 0 /\ live = {} /\ exhausted = FALSE
         /\ sig = NoSig /\ out = [op |-> "none"]
 
@@ -159,7 +162,7 @@ Sign(m) ==
 
 \* KesSig::verify(t, pk, m) of the last signature against the key's root and its message
 Verify(t) ==
-    /\ depth > 0 /\ sig # NoSig
+    /\ depth > 0 /\ sig # NoSig /\ t < Total
     /\ out' = [op |-> "verify", t |-> t, ok |-> VerifyBody(sig.body, t, Root, sig.m)]
     /\ UNCHANGED <<depth, compact, period, live, exhausted, sig>>
 
@@ -167,7 +170,7 @@ Next == \/ \E d \in Depths : \E c \in BOOLEAN : KeyGen(d, c)
         \/ UpdateOk
         \/ UpdateFail
         \/ \E m \in Msgs : Sign(m)
-        \/ \E t \in 0..(Total - 1) : Verify(t)
+        \/ \E t \in Periods : Verify(t)
 
 Spec == Init /\ [][Next]_vars
 
